@@ -105,13 +105,13 @@ func Meta() core.Meta {
 	ns := len(singles()) * len(etypes)
 	return core.Meta{
 		Engine: "c01", Property: "C01", Level: "exploration",
-		Rule: "case = one run: a service (keytab parsed from reference-written bytes, settings from the tape) receives 1-6 AP-REQs minted by the reference implementation, each a valid request or one carrying 1-2 catalogue defects, presented at an instant placed exactly on / 1ns / 1us / 1s beside the time bound concerned; sweep = every single defect and valid variant x 6 etypes (thorough: x 72 settings combinations); distinct = distinct (settings, etype, defect set with argument, model verdict, outcome); non-trivial = at least one defect, a replay or a non-default setting involved",
+		Rule:       "case = one run: a service (keytab parsed from reference-written bytes, settings from the tape) receives 1-6 AP-REQs minted by the reference implementation, each a valid request or one carrying 1-2 catalogue defects, presented at an instant placed exactly on / 1ns / 1us / 1s beside the time bound concerned; sweep = every single defect and valid variant x 6 etypes (thorough: x 72 settings combinations); distinct = distinct (settings, etype, defect set with argument, model verdict, outcome); non-trivial = at least one defect, a replay or a non-default setting involved",
 		SweepQuick: ns, SweepThorough: ns * len(settingsCombos()),
 		SeededQuick: 6000, SeededThorough: 400000,
 		WorkloadProbes: []string{"bound-plus-1ns", "bound-minus-1ns", "replayed", "pair-of-defects", "valid-accept-expected", "override-principal", "address-required"},
 		Components: map[string]string{
 			"messages.APReq.Unmarshal, service.VerifyAPREQ, APReq.Verify, Ticket.DecryptEncPart/Valid, keytab.Unmarshal/GetEncryptionKey, crypto (6 etypes), replay cache": "real",
-			"KDC and client that mint tickets/authenticators, attacker on the path": "stub: refkrb (independent DER + RFC 3961/3962/8009/4757 implementation)",
+			"KDC and client that mint tickets/authenticators, attacker on the path":                                                                                        "stub: refkrb (independent DER + RFC 3961/3962/8009/4757 implementation)",
 			"time": "real package on the synctest fake clock",
 		},
 		Assumptions: []string{
